@@ -12,6 +12,36 @@
 
 #ifndef VERIF_REPLAY
 /* CBMC has no model for vsnprintf; log text is not the subject of any property */
+#ifdef ENV_FORMAT_NAMES
+/* attribute names built with a format ("h26x.n[%lu]"): a tiny formatter for exactly one %lu / %llu / %u argument
+ * below 100; everything else in this harness family only formats log text */
+int vsnprintf(char *str, size_t size, const char *format, va_list ap)
+{
+    char tmp[40];
+    unsigned n = 0;
+    for (unsigned i = 0; format[i] != 0 && n + 4 < sizeof(tmp); i++) {
+        if (format[i] != '%') {
+            tmp[n++] = format[i];
+            continue;
+        }
+        i++;
+        while (format[i] == 'l')
+            i++;
+        uint64_t v = va_arg(ap, uint64_t);
+        if (v >= 10)
+            tmp[n++] = (char)('0' + (v / 10) % 10);
+        tmp[n++] = (char)('0' + v % 10);
+    }
+    tmp[n] = 0;
+    if (str != NULL && size > 0) {
+        unsigned k = 0;
+        for (; k < n && k + 1 < size; k++)
+            str[k] = tmp[k];
+        str[k] = 0;
+    }
+    return (int)n;
+}
+#else
 int vsnprintf(char *str, size_t size, const char *format, va_list ap)
 {
     (void)format; (void)ap;
@@ -19,6 +49,7 @@ int vsnprintf(char *str, size_t size, const char *format, va_list ap)
         str[0] = '\0';
     return 0;
 }
+#endif
 void *memchr(const void *s, int c, size_t n)
 {
     const unsigned char *p = (const unsigned char *)s;
